@@ -294,11 +294,12 @@ def State.loadMeta (s : State) (b k : Bytes) : Option Meta :=
     | some (.good m) => some m
     | some .corrupt => none
 
-/-- `verify_upload_id` -/
-def State.verify (s : State) (who : Who) (id : Nat) : Bool :=
+/-- `verify_upload_id` (38336b0): `NoSuchUpload` when the upload record does not exist, `AccessDenied` when it names other
+    credentials; `none` = the upload exists and belongs to the requester -/
+def State.verify (s : State) (who : Who) (id : Nat) : Option Err :=
   match alLookup id s.uploads with
-  | none => false
-  | some u => u.owner = who
+  | none => some .NoSuchUpload
+  | some u => if u.owner = who then none else some .AccessDenied
 
 def checksOk (H : Hashes) (c : Bytes) (x : Cks) : Bool :=
   (x.crc32.all (· = H.crc32 c)) && (x.crc32c.all (· = H.crc32c c)) &&
@@ -541,16 +542,18 @@ def step (H : Hashes) (dirLen : Nat) (s : State) : Op → State × Resp
   | .uploadPart who _b _k u n c =>
     if n > 10000 then (s, .err .InvalidArgument)
     else match u with
-      | none => (s, .err .InvalidRequest)
+      | none => (s, .err .NoSuchUpload)                           -- not a UUID: no such upload
       | some id =>
-        if !s.verify who id then (s, .err .AccessDenied)
-        else ({ s with parts := alInsert (id, n) c s.parts }, .part (some (etagOf H c)))
+        match s.verify who id with
+        | some e => (s, .err e)
+        | none => ({ s with parts := alInsert (id, n) c s.parts }, .part (some (etagOf H c)))
   | .uploadPartCopy who _b _k u n sb sk range =>
     match u with
-    | none => (s, .err .InvalidRequest)
+    | none => (s, .err .NoSuchUpload)
     | some id =>
-      if !s.verify who id then (s, .err .AccessDenied)
-      else match objPath sb sk with
+      match s.verify who id with
+      | some e => (s, .err e)
+      | none => match objPath sb sk with
         | .error e => (s, .err e)
         | .ok (sbd, sp) =>
           match s.node sbd sp with
@@ -568,20 +571,24 @@ def step (H : Hashes) (dirLen : Nat) (s : State) : Op → State × Resp
                 let body := (c.drop start).take cl
                 ({ s with parts := alInsert (id, n) body s.parts }, .part (some (etagOf H body)))
   | .listParts _who _b _k u =>
+    -- 38336b0: the upload must exist (`check_upload_exists`; whose it is does not matter here)
     match u with
-    | none => (s, .parts [])
+    | none => (s, .err .NoSuchUpload)
     | some id =>
-      let ps := s.parts.filterMap fun e => if e.1.1 = id then some (e.1.2, e.2.length) else none
-      (s, .parts (sortParts ps))
+      if !alHas id s.uploads then (s, .err .NoSuchUpload)
+      else
+        let ps := s.parts.filterMap fun e => if e.1.1 = id then some (e.1.2, e.2.length) else none
+        (s, .parts (sortParts ps))
   | .completeMultipartUpload who b k u parts =>
     match parts with
     | none => (s, .err .InvalidPart)
     | some pl =>
       match u with
-      | none => (s, .err .InvalidRequest)
+      | none => (s, .err .NoSuchUpload)
       | some id =>
-        if !s.verify who id then (s, .err .AccessDenied)
-        else
+        match s.verify who id with
+        | some e => (s, .err e)
+        | none =>
           -- nothing is changed before the part list and the part files are validated and the content is in place
           match objPath b k with
           | .error e => (s, .err e)
@@ -603,10 +610,11 @@ def step (H : Hashes) (dirLen : Nat) (s : State) : Op → State × Resp
                     .completed (some (etagOf H c)))
   | .abortMultipartUpload who b k u =>
     match u with
-    | none => (s, .err .InvalidRequest)
+    | none => (s, .err .NoSuchUpload)
     | some id =>
-      if !s.verify who id then (s, .err .AccessDenied)
-      else
+      match s.verify who id with
+      | some e => (s, .err e)
+      | none =>
         ({ s with upMetas := alErase (b, k, id) s.upMetas,
                   parts := s.parts.filter (fun e => e.1.1 ≠ id),
                   uploads := alErase id s.uploads }, .ok)
